@@ -490,3 +490,113 @@ Lemma coh_run_strict c ops : forall s s', Coh c s -> run_strict c s ops = Ok s' 
 Proof.
   intros s s' HC H. apply run_strict_fold in H. subst. apply coh_fold. exact HC.
 Qed.
+
+(* ------------------------------------------------------------------ one object per name *)
+Notation get := Hdl21.Model.Namespace.get.   (* not String.get *)
+Lemma coh_one_view c s n v : Coh c s -> get s n = Some v ->
+  exists k, view_of c (v_kind v) = Some k /\ lookup n (st_views s k) = Some v /\
+            forall k', k' <> k -> lookup n (st_views s k') = None.
+Proof.
+  intros HC H. unfold get in H. destruct (coh_entry c s n v HC H) as [Ha _].
+  unfold is_attr in Ha. destruct (view_of c (v_kind v)) as [k|] eqn:Hk; [|discriminate].
+  exists k. split; [reflexivity|]. split.
+  - apply (coh_lookup_view c s n v k HC). auto.
+  - intros k' Hne. destruct (lookup n (st_views s k')) as [w|] eqn:E; [|reflexivity].
+    apply (coh_lookup_view c s n w k' HC) in E. destruct E as [E1 E2].
+    rewrite H in E1. inversion E1. subst w. congruence.
+Qed.
+
+Lemma coh_unbound c s n : Coh c s -> get s n = None -> forall k, lookup n (st_views s k) = None.
+Proof.
+  intros HC H k. destruct (lookup n (st_views s k)) as [w|] eqn:E; [|reflexivity].
+  apply (coh_lookup_view c s n w k HC) in E. unfold get in H. destruct E. congruence.
+Qed.
+
+Lemma coh_view_entry c s n v k : Coh c s -> lookup n (st_views s k) = Some v -> get s n = Some v.
+Proof. intros HC H. apply (coh_lookup_view c s n v k HC) in H. unfold get. tauto. Qed.
+
+Lemma coh_ports c s n v p : c = CModule -> Coh c s -> get s n = Some v -> v_kind v = KSignal p ->
+  (lookup n (st_views s VPorts) = Some v <-> p = true) /\ (lookup n (st_views s VSignals) = Some v <-> p = false).
+Proof.
+  intros -> HC H Hk. unfold get in H. split; rewrite (coh_lookup_view CModule s n v _ HC), Hk; destruct p; simpl;
+    split; intros; try tauto; try discriminate; try (destruct H0; discriminate); auto.
+Qed.
+
+(* ------------------------------------------------------------------ an accepted binding is the last one, others untouched *)
+Lemma do_add_binds c s n v s' : do_add c s n v = Ok s' ->
+  get s' n = Some (store_name v n) /\ forall m, m <> n -> get s' m = get s m.
+Proof.
+  unfold do_add. destruct (st_elab s); [discriminate|]. destruct (reserved c n); [discriminate|].
+  destruct (view_of c (v_kind v)); [|discriminate]. intros H. inversion H. clear H. unfold get. simpl. split.
+  - rewrite lookup_upd, String.eqb_refl. reflexivity.
+  - intros m Hm. apply String.eqb_neq in Hm. rewrite lookup_upd, Hm.
+    destruct (existsb _ _); [rewrite lookup_rem, Hm|]; reflexivity.
+Qed.
+
+(* ------------------------------------------------------------------ rejections *)
+Lemma reserved_not_private c n : table_ok c = true -> reserved c n = true -> is_private n = false.
+Proof.
+  intros T H. unfold table_ok in T.
+  apply andb_true_iff in T. destruct T as [T _]. apply andb_true_iff in T. destruct T as [_ Tpriv].
+  apply negb_true_iff. exact (mem_forallb (fun n => negb (is_private n)) _ n Tpriv H).
+Qed.
+
+Lemma do_add_reserved c s n v : reserved c n = true -> exists e, do_add c s n v = Error e.
+Proof. intros H. unfold do_add. destruct (st_elab s); [eauto|]. rewrite H. eauto. Qed.
+
+Lemma do_add_elab c s n v : st_elab s = true -> exists e, do_add c s n v = Error e.
+Proof. intros H. unfold do_add. rewrite H. eauto. Qed.
+
+Lemma reject_reserved_setattr c s n v : table_ok c = true -> reserved c n = true ->
+  (n = "name"%string -> v_kind v <> KStr) -> exists e, step c s (SetAttr n v) = Error e.
+Proof.
+  intros T H Hn. simpl. rewrite (reserved_not_private c n T H).
+  destruct (mem n (banned_names c)); [eauto|].
+  destruct (String.eqb n "name"%string) eqn:E.
+  - apply String.eqb_eq in E. specialize (Hn E). destruct (v_kind v); eauto. congruence.
+  - destruct (is_bundle c && String.eqb n "roles"%string); [eauto|].
+    destruct (negb (is_attr c (v_kind v))); [eauto|]. apply do_add_reserved. exact H.
+Qed.
+
+Lemma reject_reserved_add c s v on n : reserved c n = true ->
+  (on = Some n /\ v_name v = None) \/ (on = None /\ v_name v = Some n) -> exists e, step c s (Add v on) = Error e.
+Proof.
+  intros H Hn. simpl. destruct (negb (is_attr c (v_kind v))); [eauto|].
+  destruct Hn as [[-> ->]|[-> ->]]; apply do_add_reserved; exact H.
+Qed.
+
+Lemma reject_nonhdl_setattr c s n v : is_attr c (v_kind v) = false -> is_private n = false -> n <> "name"%string ->
+  exists e, step c s (SetAttr n v) = Error e.
+Proof.
+  intros H Hp Hn. simpl. rewrite Hp. destruct (mem n (banned_names c)); [eauto|].
+  apply String.eqb_neq in Hn. rewrite Hn. destruct (is_bundle c && String.eqb n "roles"%string); [eauto|].
+  rewrite H. simpl. eauto.
+Qed.
+
+Lemma reject_nonhdl_add c s v on : is_attr c (v_kind v) = false -> exists e, step c s (Add v on) = Error e.
+Proof. intros H. simpl. rewrite H. simpl. eauto. Qed.
+
+Lemma reject_after_elab c s o : st_elab s = true ->
+  match o with
+  | SetAttr n v => is_private n = false /\ n <> "name"%string
+  | Add _ _ | Del _ => True
+  | Elaborate => False
+  end -> exists e, step c s o = Error e.
+Proof.
+  intros He Ho. destruct o as [n v|v on|n|]; simpl.
+  - destruct Ho as [Hp Hn]. rewrite Hp. destruct (mem n (banned_names c)); [eauto|].
+    apply String.eqb_neq in Hn. rewrite Hn. destruct (is_bundle c && String.eqb n "roles"%string); [eauto|].
+    destruct (negb (is_attr c (v_kind v))); [eauto|]. apply do_add_elab. exact He.
+  - destruct (negb (is_attr c (v_kind v))); [eauto|].
+    destruct on, (v_name v); eauto; apply do_add_elab; exact He.
+  - eauto.
+  - tauto.
+Qed.
+
+Lemma public_unbound c s n : table_ok c = true -> Coh c s -> mem n (public_attrs c) = true -> get s n = None.
+Proof.
+  intros T HC H. unfold table_ok in T. apply andb_true_iff in T. destruct T as [_ Tpub].
+  pose proof (mem_forallb (fun n => reserved c n) _ n Tpub H) as Hr. simpl in Hr.
+  destruct (get s n) as [v|] eqn:E; [|reflexivity].
+  destruct (coh_entry c s n v HC E) as [_ [_ [Hx _]]]. congruence.
+Qed.
